@@ -116,3 +116,15 @@ CLAIMED['C13'] = dict(
          "symbolic bases is assumed as the engine documents.",
     technique="SMT equivalence of the real engine's read results against a byte-store model over enumerated histories",
     design_ref="DESIGN.md §3 C13", engine='refsem')
+
+CLAIMED['C12'] = dict(
+    level='other',
+    text="The real SymbolicExecutionEngine runs on ~700 (quick) / ~12000 (thorough) generated IR blocks (parallel assignments, "
+         "swaps, loads/stores of 8/16/32 bits on two symbolic bases, integer addresses and register pointers, slices of loaded "
+         "values, wrap-around offsets) and on IR lifted by the real lifters of 9 architectures (plus x86 multi-instruction "
+         "sequences); z3 proves, for all initial registers and memory under the non-aliasing hypotheses, that every register, "
+         "the memory at a symbolic probe address and the destination equal direct parallel execution of the same IR.",
+    note="Trusted: z3, vf/refsem.py, vf/irsym.py (direct executor). Programs are enumerated/generated (seeded), initial states "
+         "are solver variables.",
+    technique="SMT equivalence between the real engine's final symbolic state and a direct IR executor, per program",
+    design_ref="DESIGN.md §3 C12", engine='irsym+refsem')
